@@ -3,6 +3,7 @@ CONSTANTS
  Confs <- LockConfs
  MaxCloses = 3
  MaxOps = 2
+ Eager = FALSE
 SPECIFICATION Spec
 INVARIANTS TypeOK LocksNonNeg LocksExact MarkIsReach FallbackPresent CopyKeeps
 PROPERTIES O1 O2 O3 O4 OnlyCloseDeletes
